@@ -1,7 +1,7 @@
-(* C16: query_correct -- for every query and table outside the recorded classes on which the
-   reference makes a demand, the faithful model of TurDB's execution (WHERE, HashAggregate, HAVING,
-   projection onto the select list) returns exactly the rows the reference demands, in the order of
-   first occurrence of the groups. *)
+(* C16: query_correct_plain_columns -- for every query whose GROUP BY keys and aggregate arguments are
+   plain columns and every table on which the reference makes a demand, the faithful model of TurDB's
+   execution (WHERE, HashAggregate, HAVING, projection onto the select list) returns exactly the rows
+   the reference demands, in the order of first occurrence of the groups. *)
 From Coq Require Import ZArith List Bool Lia.
 From TV Require Import Model.SqlSpecAgg Model.AggImpl Model.AggClass
   Proof.AggFold Proof.AggFoldSpec Proof.AggKeys Proof.AggGroups Proof.AggGroupsMain Proof.AggProgress
@@ -98,15 +98,13 @@ Proof.
   cbn [ints_of]. rewrite Z. cbn. eauto.
 Qed.
 
-Lemma class0_group : forall q t rows a grows,
-  where_rows (q_where q) t = Some rows ->
-  cls_text_ext q t = false -> cls_count_null q t = false -> cls_sum_empty q t = false -> q_int_sums q t = true ->
-  In a (q_aggs q) -> incl grows rows -> In grows (ref_groups q t) ->
-  forall vs, map_opt (eval (a_arg a)) grows = Some vs -> vals_class (a_fn a) vs = 0 /\ int_sums (a_fn a) vs = true.
+Lemma int_sums_group : forall q t rows a grows,
+  where_rows (q_where q) t = Some rows -> q_int_sums q t = true ->
+  In a (q_aggs q) -> incl grows rows ->
+  forall vs, map_opt (eval (a_arg a)) grows = Some vs -> int_sums (a_fn a) vs = true.
 Proof.
-  intros q t rows a grows W Ct Cn Cs Ci Ia Inc Ig vs M.
+  intros q t rows a grows W Ci Ia Inc vs M.
   assert (Hin : input_rows q t = rows) by (unfold input_rows; now rewrite W).
-  (* every value of vs is the argument on an input row *)
   assert (Hv : forall v, In v vs -> exists r, In r rows /\ eval (a_arg a) r = Some v).
   { intros v Iv. destruct (map_opt_in _ _ _ M v Iv) as [r [Ir Er]]. exists r. split; [now apply Inc|exact Er]. }
   assert (Hav : forall r, In r rows -> In (eval (a_arg a) r) (arg_vals a (input_rows q t))).
@@ -118,30 +116,9 @@ Proof.
       by (destruct (a_fn a); try contradiction; exact Ci).
     rewrite forallb_forall in Hall. specialize (Hall _ (Hav r Ir)). rewrite Er in Hall.
     destruct v; try discriminate; eauto. }
-  destruct (a_fn a) eqn:Fn; cbn [vals_class int_sums].
-  - split; reflexivity.
-  - split; [|reflexivity]. destruct (existsb is_null vs) eqn:E; [|reflexivity]. exfalso.
-    apply existsb_exists in E as [v [Iv Nv]]. destruct v; try discriminate. destruct (Hv _ Iv) as [r [Ir Er]].
-    assert (cls_count_null q t = true); [|congruence].
-    unfold cls_count_null. apply existsb_exists. exists a. split; [exact Ia|]. rewrite Fn.
-    apply existsb_exists. exists (Some VNull). split; [rewrite <- Er; now apply Hav|reflexivity].
-  - destruct (Hints I) as [zs Z]. rewrite Z. split; [|reflexivity].
-    destruct (nonnull vs) eqn:NN; [|reflexivity]. exfalso.
-    assert (cls_sum_empty q t = true); [|congruence].
-    unfold cls_sum_empty. apply existsb_exists. exists a. split; [exact Ia|]. rewrite Fn.
-    apply existsb_exists. exists grows. split; [exact Ig|]. unfold arg_vals. rewrite (map_opt_map _ _ _ M).
-    apply forallb_forall. intros o Io. apply in_map_iff in Io as [v [<- Iv]]. now rewrite (nonnull_nil_all vs NN v Iv).
-  - destruct (Hints I) as [zs Z]. rewrite Z. split; reflexivity.
-  - split; [|reflexivity]. destruct (existsb is_textual vs) eqn:E; [|reflexivity]. exfalso.
-    apply existsb_exists in E as [v [Iv Tv]]. destruct (Hv _ Iv) as [r [Ir Er]].
-    assert (cls_text_ext q t = true); [|congruence].
-    unfold cls_text_ext. apply existsb_exists. exists a. split; [exact Ia|]. rewrite Fn.
-    apply existsb_exists. exists (Some v). split; [rewrite <- Er; now apply Hav|]. destruct v; try discriminate; reflexivity.
-  - split; [|reflexivity]. destruct (existsb is_textual vs) eqn:E; [|reflexivity]. exfalso.
-    apply existsb_exists in E as [v [Iv Tv]]. destruct (Hv _ Iv) as [r [Ir Er]].
-    assert (cls_text_ext q t = true); [|congruence].
-    unfold cls_text_ext. apply existsb_exists. exists a. split; [exact Ia|]. rewrite Fn.
-    apply existsb_exists. exists (Some v). split; [rewrite <- Er; now apply Hav|]. destruct v; try discriminate; reflexivity.
+  destruct (a_fn a) eqn:Fn; cbn [int_sums]; try reflexivity.
+  - destruct (Hints I) as [zs Z]. now rewrite Z.
+  - destruct (Hints I) as [zs Z]. now rewrite Z.
 Qed.
 
 (* ------------------------------------------------------------------ the pipeline over the groups *)
@@ -156,7 +133,7 @@ Section Pipeline.
   Variable q : aquery.
   Hypothesis Hkeys : forallb is_plain (q_keys q) = true.
   Hypothesis Haggs : forallb plain_agg (q_aggs q) = true.
-  Let engine := sel_aggs q.
+  Let engine := engine_aggs q.
   Let fs := map mfn_of engine.
 
   Lemma project_all_ok : forall gs envs out,
@@ -175,7 +152,9 @@ Section Pipeline.
   Qed.
 
   Lemma having_filter_ok : forall h gs envs,
-    (forall i, In i (cols_of h) -> Nat.ltb i (length (q_keys q)) = true \/ In i (q_sel q)) ->
+    (forall i, In i (cols_of h) -> Nat.ltb i (length (q_keys q)) = true \/
+       (forall a, nth_error (q_aggs q) (i - length (q_keys q)) = Some a ->
+                  exists a', In a' engine /\ name_eqb (agg_name a) (agg_name a') = true)) ->
     Forall2 (GR q) gs envs -> defined_on h envs = true ->
     exists gs', having_filter q engine h (map (garow fs) gs) = SOk (map (garow fs) gs') /\
                 Forall2 (GR q) gs' (filter_spec h envs).
@@ -198,22 +177,11 @@ Section Pipeline.
 End Pipeline.
 
 (* ------------------------------------------------------------------ the theorem *)
-Theorem query_correct : forall q t rs,
-  q_class q t = 0 -> q_int_sums q t = true ->
+Theorem query_correct_plain_columns : forall q t rs,
+  forallb is_plain (q_keys q) = true -> forallb plain_agg (q_aggs q) = true -> q_int_sums q t = true ->
   spec_query q t = SRows rs -> model_query q t = MRows rs.
 Proof.
-  intros q t rs C Ci S.
-  (* the classes *)
-  unfold q_class in C.
-  destruct (cls_key_expr q) eqn:C6; [discriminate|]. destruct (cls_arg_expr q) eqn:C5; [discriminate|].
-  destruct (cls_having_agg q) eqn:C7; [discriminate|]. destruct (cls_text_ext q t) eqn:C4; [discriminate|].
-  destruct (cls_count_null q t) eqn:C1; [discriminate|]. destruct (cls_sum_empty q t) eqn:C2; [discriminate|]. clear C.
-  assert (Hkeys : forallb is_plain (q_keys q) = true) by (unfold cls_key_expr in C6; now apply negb_false_iff in C6).
-  assert (Haggs : forallb plain_agg (q_aggs q) = true).
-  { apply forallb_forall. intros a Ia. unfold plain_agg.
-    destruct (match a_fn a with FCountStar => true | _ => is_plain (a_arg a) end) eqn:E; [reflexivity|]. exfalso.
-    assert (cls_arg_expr q = true); [|congruence]. unfold cls_arg_expr. apply existsb_exists. exists a. split; [exact Ia|].
-    destruct (a_fn a); try discriminate; now rewrite E. }
+  intros q t rs Hkeys Haggs Ci S.
   (* the reference *)
   unfold spec_query in S.
   destruct (where_rows (q_where q) t) as [rows|] eqn:W; [|discriminate].
@@ -239,10 +207,10 @@ Proof.
     apply (Forall2_impl_in _ _ _ _ Fv). intros a v Ia Sa.
     assert (Pa : plain_agg a = true) by (rewrite forallb_forall in Haggs; now apply Haggs).
     apply (agg_frun_spec a (snd g) v Pa Sa). intros vs0 M0.
-    apply (class0_group q t rows a (snd g) W C4 C1 C2 Ci Ia Inc Hr vs0 M0). }
+    apply (int_sums_group q t rows a (snd g) W Ci Ia Inc vs0 M0). }
   (* the folds get through *)
-  assert (Hf : forall g, In g gs -> folds_ok (map mfn_of (sel_aggs q)) (snd g)).
-  { intros g Ig f Hfm. apply in_map_iff in Hfm as [a [<- Ia]]. apply sel_aggs_from in Ia.
+  assert (Hf : forall g, In g gs -> folds_ok (map mfn_of (engine_aggs q)) (snd g)).
+  { intros g Ig f Hfm. apply in_map_iff in Hfm as [a [<- Ia]]. apply engine_from in Ia.
     assert (Ig' : In g (ref_gs (q_keys q) ks rows)) by exact Ig.
     pose proof (group_envs_spec _ _ _ G) as F.
     assert (Hex : exists env, exists vs, env = fst g ++ vs /\ Forall2 (fun a v => agg_spec a (snd g) = AVal v) (q_aggs q) vs).
@@ -253,20 +221,22 @@ Proof.
     destruct (ref_gs_facts _ _ _ _ M Ig') as [_ Inc].
     assert (Hr : In (snd g) (ref_groups q t)) by (rewrite (ref_groups_gs q t rows ks W M); now apply in_map).
     destruct (agg_frun_spec a (snd g) v Pa Sa) as [Hs _]; [|exact Hs].
-    intros vs0 M0. apply (class0_group q t rows a (snd g) W C4 C1 C2 Ci Ia Inc Hr vs0 M0). }
+    intros vs0 M0. apply (int_sums_group q t rows a (snd g) W Ci Ia Inc vs0 M0). }
   (* the model *)
   unfold model_query, model_steps. rewrite W.
-  rewrite (agg_rows_groups (q_keys q) (map mfn_of (sel_aggs q)) rows ks); [|rewrite all_plain_iff; exact Hkeys|exact M|exact K|exact Hf].
+  rewrite (agg_rows_groups (q_keys q) (map mfn_of (engine_aggs q)) rows ks); [|rewrite all_plain_iff; exact Hkeys|exact M|exact K|exact Hf].
   fold gs. cbn [sbind].
   destruct (q_having q) as [h|] eqn:Hh.
   - cbn [having_ok having_rows] in HO, P.
-    assert (Hall : forall i, In i (cols_of h) -> Nat.ltb i (length (q_keys q)) = true \/ In i (q_sel q)).
-    { intros i Hi. unfold cls_having_agg in C7. rewrite Hh in C7.
-      destruct (Nat.ltb i (length (q_keys q))) eqn:L; [now left|right].
-      destruct (nat_in i (q_sel q)) eqn:Ni.
-      - unfold nat_in in Ni. apply existsb_exists in Ni as [x [Ix Ex]]. apply Nat.eqb_eq in Ex. now subst.
-      - exfalso. assert (existsb (fun i0 => negb (Nat.ltb i0 (length (q_keys q))) && negb (nat_in i0 (q_sel q))) (cols_of h) = true); [|congruence].
-        apply existsb_exists. exists i. split; [exact Hi|]. now rewrite L, Ni. }
+    assert (Hall : forall i, In i (cols_of h) -> Nat.ltb i (length (q_keys q)) = true \/
+       (forall a, nth_error (q_aggs q) (i - length (q_keys q)) = Some a ->
+                  exists a', In a' (engine_aggs q) /\ name_eqb (agg_name a) (agg_name a') = true)).
+    { intros i Hi. destruct (Nat.ltb i (length (q_keys q))) eqn:L; [now left|right]. intros a Na.
+      assert (Pa : plain_agg a = true) by (rewrite forallb_forall in Haggs; apply Haggs; eapply nth_error_In; eauto).
+      pose proof (having_aggs_in q h i a Hh Hi L Na) as Ih.
+      destruct (add_new_extra (having_aggs q) (sel_aggs q) a Ih) as [a' [Ia' [->|Ea]]].
+      - exists a. split; [exact Ia'|now apply name_refl].
+      - exists a'. split; [exact Ia'|now apply agg_eqb_name]. }
     destruct (having_filter_ok q Hkeys Haggs h gs envs Hall R HO) as [gs' [E R']].
     rewrite E. cbn [sbind]. now rewrite (project_all_ok q Hkeys Haggs gs' _ out R' P).
   - cbn [having_rows] in P. cbn [sbind]. now rewrite (project_all_ok q Hkeys Haggs gs envs out R P).
